@@ -191,6 +191,11 @@ type c03Quota struct {
 	Children   []string
 }
 
+var c03StateName = []string{"pending", "reserved", "bound", "bound-but-rolled-back"}
+
+// does the pod hold an assignment the quota accounts for?
+func (pd *c03Pod) holds() bool { return pd.State == c03Reserved || pd.State == c03Bound }
+
 func (q *c03Quota) declares(d corev1.ResourceName) bool {
 	for _, x := range q.Dims {
 		if x == d {
@@ -209,12 +214,16 @@ const (
 	c03Pending = iota
 	c03Reserved
 	c03Bound
+	// bound and running, but the scheduler rolled its reservation back after the binding was already visible (the bind
+	// call reported an error): charged nowhere until the next pod event re-assigns it. Never scheduled again (it is bound).
+	c03Limbo
 )
 
 type c03Pod struct {
 	Name     string
 	Quota    string // the quota that holds the pod (the default quota while the pod is parked there)
 	Label    string // parked pods: the quota named by the label, created later (or never)
+	BindCall bool   // bound (the binding is visible) while the scheduler's bind call has not reported its result yet
 	Parked   bool   // labelled with a quota that did not exist when the pod arrived: kept in the default quota until migrated
 	How      string // how the association is expressed
 	Req      c03Res // full request, undeclared dimensions included
@@ -253,6 +262,8 @@ type c03Case struct {
 	pods     map[string]*c03Pod
 	special  bool // some pods go to the default / system quota in this case
 	late     []*c03Late
+	lateErr  bool // a late bind error happened in this case (signature attribution only)
+	podUpd   bool // the "+pod-updates" units: status updates of pods and the late bind error (Unreserve after the binding is visible)
 	baseDims []corev1.ResourceName
 	tight    bool // small cluster: runtime quotas well below max
 	podSeq   int
@@ -292,7 +303,7 @@ func (h *c03Case) modelUsed(x *c03Quota, nonPreOnly bool) c03Res {
 	out := c03Res{}
 	for _, name := range h.podNames() {
 		pd := h.pods[name]
-		if pd.State == c03Pending || (nonPreOnly && !pd.NonPre) {
+		if !pd.holds() || (nonPreOnly && !pd.NonPre) {
 			continue
 		}
 		own := h.quotas[pd.Quota]
@@ -756,7 +767,7 @@ func (h *c03Case) pick(t *rapid.T, state int, label string, prefer func(*c03Pod)
 	var names, pref []string
 	for _, n := range h.podNames() {
 		pd := h.pods[n]
-		if pd.State == state || (state == -1 && pd.State != c03Pending) {
+		if pd.State == state || (state == -1 && pd.holds()) {
 			names = append(names, n)
 			if prefer != nil && prefer(pd) {
 				pref = append(pref, n)
@@ -782,7 +793,7 @@ func (h *c03Case) leavesUnderFullAncestor() []string {
 		}
 	}
 	for _, n := range h.podNames() {
-		if pd := h.pods[n]; pd.State != c03Pending {
+		if pd := h.pods[n]; pd.holds() {
 			for _, d := range h.quotas[pd.Quota].Dims {
 				handedOut[d] += pd.Req[d]
 			}
@@ -837,7 +848,7 @@ func (h *c03Case) windowSig(q *c03Quota, sig string) string {
 	for _, a := range h.chain(q) {
 		tainted = tainted || a.Window
 	}
-	if tainted {
+	if tainted && !h.lateErr {
 		return c03WindowSig
 	}
 	return sig
@@ -847,7 +858,7 @@ func (h *c03Case) windowSig(q *c03Quota, sig string) string {
 func (h *c03Case) moveToOwnQuota(pd *c03Pod, how string) {
 	q := h.quotas[pd.Label]
 	pd.Quota, pd.Parked = q.Name, false
-	if pd.State != c03Pending {
+	if pd.holds() {
 		// running pods arrive without passing admission: the quota and its ancestors leave the "used <= max" claim
 		q.Imported = true
 		for _, a := range h.chain(q) {
@@ -857,7 +868,7 @@ func (h *c03Case) moveToOwnQuota(pd *c03Pod, how string) {
 	} else {
 		h.c.Class("migrated-pending-pod")
 	}
-	h.logf("  %s now in %s (%s, %s)", pd.Name, q.Name, how, []string{"pending", "reserved", "bound"}[pd.State])
+	h.logf("  %s now in %s (%s, %s)", pd.Name, q.Name, how, c03StateName[pd.State])
 }
 
 // create one of the planned late quotas: a leaf, webhook-valid where it lands
@@ -947,16 +958,64 @@ func (h *c03Case) released(pd *c03Pod) {
 func (h *c03Case) deletePod(t *rapid.T, pd *c03Pod) {
 	was := pd.State
 	h.p.OnPodDelete(pd.Obj)
-	if was != c03Pending {
+	if was == c03Reserved || was == c03Bound {
 		h.released(pd)
 		h.c.Class("delete-of-assigned-pod")
 	}
 	delete(h.pods, pd.Name)
-	h.logf("podDelete %s (was %s)", pd.Name, []string{"pending", "reserved", "bound"}[was])
+	h.logf("podDelete %s (was %s)", pd.Name, c03StateName[was])
 	if was == c03Reserved && rapid.Bool().Draw(t, "lateUnreserve") {
 		// the binding cycle of a pod deleted meanwhile fails and rolls back
 		h.p.Unreserve(context.TODO(), framework.NewCycleState(), pd.Obj, "n1")
 		h.logf("unreserve %s (after its delete)", pd.Name)
+	}
+}
+
+// the scheduler's bind call of an already visibly bound pod returns: fine, or with an error / time-out although the
+// binding went through. On an error the binding cycle rolls back (Unreserve; koordinator code paths may also ForgetPod,
+// whose handler is the plugin's handlePodDelete). The pod keeps running; the manager charges it again with its next
+// pod event (OnPodUpdate: bound, not terminated, not assigned -> assign), which bypasses admission.
+func (h *c03Case) bindCallReturns(t *rapid.T, pd *c03Pod) {
+	pd.BindCall = false
+	if rapid.IntRange(0, 2).Draw(t, "bindCallError") == 0 {
+		h.logf("bindCallOK %s", pd.Name)
+		return
+	}
+	h.p.Unreserve(context.TODO(), framework.NewCycleState(), pd.Obj, "n1")
+	forget := rapid.Bool().Draw(t, "forgetPod")
+	if forget {
+		h.p.handlePodDelete(pd.Obj)
+		h.c.Class("forget-pod-after-late-bind-error")
+	}
+	pd.State = c03Limbo
+	h.lateErr = true
+	h.released(pd)
+	h.c.Class("unreserve-after-binding-visible")
+	h.logf("bindCallError %s: unreserve (forgetPod=%v) although the pod is bound", pd.Name, forget)
+}
+
+// an ordinary update of a pod that changes nothing the quota cares about (status, resourceVersion): labels, request and
+// node stay. For a pod in limbo it is the event that makes the manager charge the running pod again.
+func (h *c03Case) podStatusUpdate(t *rapid.T, pd *c03Pod) {
+	old := pd.Obj
+	pd.RV++
+	nw := old.DeepCopy()
+	nw.ResourceVersion = fmt.Sprint(pd.RV)
+	if nw.Spec.NodeName != "" {
+		nw.Status.Phase = corev1.PodRunning
+	}
+	pd.Obj = nw
+	h.p.OnPodUpdate(old, nw)
+	h.c.Class("pod-status-update:" + c03StateName[pd.State])
+	h.logf("podStatusUpdate %s (%s)", pd.Name, c03StateName[pd.State])
+	if pd.State == c03Limbo {
+		pd.State = c03Bound
+		own := h.quotas[pd.Quota]
+		own.Imported = true // charged again without passing admission
+		for _, a := range h.chain(own) {
+			a.Imported = true
+		}
+		h.c.Class("rolled-back-bound-pod-charged-again-by-update")
 	}
 }
 
@@ -987,6 +1046,9 @@ func (h *c03Case) finishBinding(t *rapid.T, pd *c03Pod) {
 	pd.State = c03Bound
 	h.c.Class("bind")
 	h.logf("bind %s", pd.Name)
+	if h.podUpd && !window && !pd.Parked && rapid.Bool().Draw(t, "bindCallStillOut") {
+		pd.BindCall = true // the informer saw the binding before the scheduler's bind call returned
+	}
 	if window {
 		// the update is resolved to the new quota, the manager finds the pod in the default quota: it takes the pod
 		// (and its usage) out there and adds it, bound, to the new quota
@@ -1334,7 +1396,7 @@ func (h *c03Case) schedule(t *rapid.T, pd *c03Pod, midCycle func()) {
 		switch {
 		case !vb.own && !va.own:
 			sig = "admit:own-quota-over-limit"
-			if own.Special && h.rtOn {
+			if own.Special && h.rtOn && !h.lateErr {
 				sig = "admit:own-quota-over-limit:default-or-system-quota-with-runtime-quota-on"
 			}
 		case !vb.np && !va.np:
@@ -1468,7 +1530,9 @@ func c03PinSteps() {
 	}
 }
 
-func c03Run(t *testing.T, unit string, rtOn, parOn bool) {
+func c03Run(t *testing.T, unit string, rtOn, parOn bool) { c03RunX(t, unit, rtOn, parOn, false) }
+
+func c03RunX(t *testing.T, unit string, rtOn, parOn, podUpd bool) {
 	rec := vk.New(t, "C03", unit)
 	p := c03NewPlugin(t)
 	c03PinSteps()
@@ -1486,6 +1550,7 @@ func c03Run(t *testing.T, unit string, rtOn, parOn bool) {
 			rapid.Uint64().Draw(t, "salt")
 		}
 		h := c03NewCase(t, p, c, rtOn, parOn)
+		h.podUpd = podUpd
 
 		doSchedule := func(t *rapid.T) {
 			if h.dead {
@@ -1534,6 +1599,18 @@ func c03Run(t *testing.T, unit string, rtOn, parOn bool) {
 			if h.dead {
 				return
 			}
+			if h.podUpd {
+				var out []string
+				for _, n := range h.podNames() {
+					if h.pods[n].BindCall {
+						out = append(out, n)
+					}
+				}
+				if len(out) > 0 && rapid.IntRange(0, 3).Draw(t, "bindCallFirst") > 0 {
+					h.bindCallReturns(t, h.pods[rapid.SampledFrom(out).Draw(t, "boundPod")])
+					return
+				}
+			}
 			pd := h.pick(t, c03Reserved, "reservedPod", h.inWindow)
 			if pd == nil {
 				t.Skip("nothing reserved")
@@ -1573,7 +1650,7 @@ func c03Run(t *testing.T, unit string, rtOn, parOn bool) {
 			}
 			h.migrate()
 		}
-		t.Repeat(map[string]func(*rapid.T){
+		actions := map[string]func(*rapid.T){
 			"schedule":  doSchedule,
 			"schedule2": doSchedule,
 			"schedule3": doSchedule,
@@ -1606,7 +1683,7 @@ func c03Run(t *testing.T, unit string, rtOn, parOn bool) {
 				for _, n := range h.podNames() {
 					if pd := h.pods[n]; pd.Parked && pd.Label == l.Name {
 						parked = true
-						held = held || pd.State != c03Pending
+						held = held || pd.holds()
 					}
 				}
 				// mostly once a pod waits for it, preferably one that already runs in the default quota
@@ -1647,7 +1724,35 @@ func c03Run(t *testing.T, unit string, rtOn, parOn bool) {
 					h.invariant(t)
 				}
 			},
-		})
+		}
+		if podUpd {
+			doStatus := func(t *rapid.T) {
+				if h.dead {
+					return
+				}
+				// any pod that is not parked (a parked pod's events are routed by the window rules, see inWindow);
+				// mostly the ones that wait for exactly this event
+				var all, limbo []string
+				for _, n := range h.podNames() {
+					if pd := h.pods[n]; !pd.Parked {
+						all = append(all, n)
+						if pd.State == c03Limbo {
+							limbo = append(limbo, n)
+						}
+					}
+				}
+				if len(all) == 0 {
+					t.Skip("no pod")
+				}
+				if len(limbo) > 0 && rapid.IntRange(0, 3).Draw(t, "limboFirst") > 0 {
+					all = limbo
+				}
+				h.podStatusUpdate(t, h.pods[rapid.SampledFrom(all).Draw(t, "pod")])
+			}
+			actions["podStatusUpdate"] = doStatus
+			actions["podStatusUpdate2"] = doStatus
+		}
+		t.Repeat(actions)
 		c.ClassIf(!h.anyMaxLo, "no-max-lowered(used<=max asserted for every quota)")
 		if h.ntHit {
 			c.Class("admitted-after-rejection-and-release")
@@ -1663,3 +1768,18 @@ func TestVerifC03RuntimeOnParentOff(t *testing.T)  { c03Run(t, "runtime-on/paren
 func TestVerifC03RuntimeOnParentOn(t *testing.T)   { c03Run(t, "runtime-on/parent-on", true, true) }
 func TestVerifC03RuntimeOffParentOff(t *testing.T) { c03Run(t, "runtime-off/parent-off", false, false) }
 func TestVerifC03RuntimeOffParentOn(t *testing.T)  { c03Run(t, "runtime-off/parent-on", false, true) }
+
+// the same machine plus ordinary pod update events and the late bind error (separate tests: the extra actions change
+// the draw sequence, the recorded regress files of the four tests above stay valid)
+func TestVerifC03PodUpdatesRuntimeOnParentOn(t *testing.T) {
+	c03RunX(t, "runtime-on/parent-on+pod-updates", true, true, true)
+}
+func TestVerifC03PodUpdatesRuntimeOffParentOff(t *testing.T) {
+	c03RunX(t, "runtime-off/parent-off+pod-updates", false, false, true)
+}
+func TestVerifC03PodUpdatesRuntimeOnParentOff(t *testing.T) {
+	c03RunX(t, "runtime-on/parent-off+pod-updates", true, false, true)
+}
+func TestVerifC03PodUpdatesRuntimeOffParentOn(t *testing.T) {
+	c03RunX(t, "runtime-off/parent-on+pod-updates", false, true, true)
+}
